@@ -1,23 +1,27 @@
 """C15 -- string and class-usage cross-references are exact.
 
-Rule (symbolic path execution of `Analysis._create_xref`, recorders inlined to the
-primitive `set.add`, see agstatic/xref_engine.py): for const-string and
-const-string/jumbo every path adds (CUR class, CUR method, OFF) to get_xref_from() of
-strings[s] where s is decoded from the instruction's own index through get_cm_string
-on the instruction's DEX (created if absent) -- and no other opcode does.  For
-new-instance (resp. const-class) every path is either excused because the type is the
-class being scanned, or adds (TARGET class, OFF) to the method's
-get_xref_new_instance() (resp. get_xref_const_class()) set and (CUR method, OFF) to
-the target class's set, TARGET class being classes[<the type the instruction names>];
-new-instance never reaches a const-class record and vice versa, no other opcode reaches
-either; the recording path has passed the `type == current class` test (exclusion
-exactly there, and nowhere for strings); the class-level REF_TYPE records are mirrored
-and REF_TYPE(op) is defined with the right opcode numbers.
+Decided by abstract execution on model DEX files (agstatic/xref_model.py): `Analysis.__init__`, `Analysis.add`,
+`Analysis.create_xref` and everything they call are executed by the shared abstract interpreter (nothing of androguard
+is imported or run) on small model DEX objects -- classes, methods, fields, aligned reference pools, instructions with
+a concrete opcode, a reference index and a symbolic byte offset.  Then every public xref getter of every analysis
+object (and the lookup API) is evaluated the same way and the complete state is compared with the state the property
+prescribes for the model, computed independently from the Dalvik opcode table (agstatic/spec/dalvik.py).  Only computed
+results are judged, so helper methods, generators, dispatch tables, getattr through name tables, equivalent opcode
+tests, get-or-create idioms are all the same to the check; a VIOLATION is a positively computed difference (absent /
+unexpected record in an exactly evaluated set, wrong number of analysis objects, the analysed code raises); whatever
+the interpreter cannot evaluate is an analysis error (exit 2).
+
+Scenarios for C15: F1 one instruction of every opcode -- only const-string(/jumbo) may produce string xrefs, only
+new-instance / const-class the instantiation / class-reference records (each in its own list) and the mirrored
+class-level records; F4 new-instance and const-class on another internal class, an external class, the class itself
+(excluded) and repeated; F4a const-class on array types; F5 the same string loaded twice, by the jumbo form, and another
+string; F6 user and used class in different DEX files.
 """
 from __future__ import annotations
 
 from ..model import ANALYSIS
 from ..spec import dalvik
+from ..xref_model import check_property
 from ..xref_engine import (Engine, XrefModel, XrefRules, Collector, Mut, rule_ref_type_members, run_mutants,
                            m_swap_args, m_set_arg, m_set_receiver, m_rename_call, m_delete_call, m_const, m_replace_src, b_rename_local)
 
@@ -26,13 +30,10 @@ OWN_MUTATION_ADEQUACY = True
 
 
 def core(sink, eng):
-    xm = XrefModel(eng)
-    xr = XrefRules(sink, xm, "C15")
-    xr.run(("type", "string"))
-    rule_ref_type_members(sink, eng, {dalvik.CONST_CLASS_OP, dalvik.NEW_INSTANCE_OP})
-    xr.sites_floor(7)
-    sink.floor("ref_type_members", 2)
-    sink.floor("facts", 14)
+    check_property(sink, eng.repo, "C15")
+    sink.floor("scenarios", 4)
+    sink.floor("prescribed_records", 100)
+
 
 
 CX = "Analysis._create_xref"
